@@ -24,8 +24,20 @@ var replSeeds = []replSeed{
 	// n1 leads term 4 (its no-op appended, nothing of term 4 replicated yet), n3 holds neither
 	{"figure8", []string{"T:1", "run", "block:1:2", "block:1:3", "update:1", "run", "disc", "elect:2", "block:2:3", "run",
 		"heal:1:2", "heal:1:3", "heal:2:3", "disc", "elect:1", "elect:1"}},
+	// long stale tail: n1 was cut off as leader of term 2 with three uncommitted entries; n2 leads term 3 and committed
+	// fewer entries with n3 (n1's log is longer but older)
+	{"longtail", []string{"T:1", "run", "block:1:2", "block:1:3", "update:1", "update:1", "update:1", "run", "disc", "elect:2", "run", "update:2", "run", "heal:1:2", "heal:1:3"}},
 	// divergent tails: old leader n1 (term 2) has an uncommitted entry, n2 is leader of term 3 with its own entry
 	{"divergent", []string{"T:1", "run", "block:1:2", "block:1:3", "update:1", "run", "disc", "T:2", "run", "update:2", "run:4", "heal:1:2", "heal:1:3"}},
+}
+
+func replSeedByName(name string) replSeed {
+	for _, s := range replSeeds {
+		if s.name == name {
+			return s
+		}
+	}
+	panic("unknown replication seed " + name)
 }
 
 func scenRepl(seed replSeed, dev int, eagerFSM bool, updates int, crashes int, maxTerm uint64) *simScenario {
@@ -65,7 +77,10 @@ func init() {
 		simScenarios["repl-"+s.name] = scenRepl(s, 2, true, 1, 1, 4)
 	}
 	c02 := &simCheckSpec{Prop: "C02", Oracles: []string{"commit", "leader"},
-		Scenarios: func(t string) []*simScenario { return replScenarios(t, true) }, Budget: replBudget,
+		Scenarios: func(t string) []*simScenario {
+			// "across ... snapshots": delayed / duplicated InstallSnapshot requests on a lagging follower
+			return append(replScenarios(t, true), scenSnap(snapSeeds[snapSeedIndex("lagging")], 2, true, false, 1))
+		}, Budget: replBudget,
 		MustReach: []string{"commits"}}
 	vkChecks["C02"] = func(args []string) int { return runSimCheck(c02, args) }
 	// C03 also covers restart / snapshot restore / snapshot installation: two snapshot seeds are added
